@@ -24,8 +24,7 @@ pub struct OracleState {
     pub abstract_states: BTreeMap<(usize, usize, usize, usize, usize, usize, bool), u64>,
     pub max_concurrent_gets: usize,
     /// C08 reference queue: idle ids, longest idle first
-    pub idle_model: Vec<u32>,
-    pub model_ordered: bool,
+    pub idle_stamp: BTreeMap<u32, u64>,
     pub last_op_of_actor: BTreeMap<usize, usize>,
     /// whether idle_prev reflects the books at the end of the previous step
     pub idle_prev_valid: bool,
@@ -63,8 +62,7 @@ impl Default for OracleState {
             quiescent_points: 0,
             abstract_states: BTreeMap::new(),
             max_concurrent_gets: 0,
-            idle_model: Vec::new(),
-            model_ordered: true,
+            idle_stamp: BTreeMap::new(),
             last_op_of_actor: BTreeMap::new(),
             idle_prev_valid: false,
             retain_idle_at_lock: BTreeMap::new(),
@@ -1140,56 +1138,67 @@ pub fn c08_on_call(w: &mut MWorld, ci: usize) {
     }
 }
 
-/// Per-step update of the reference queue (order kept by the harness, membership from the visitor).
+/// Reference order: every object gets a stamp when it becomes idle after having been in a
+/// caller's hands (or after creation); the stamp is cleared when it is handed out again. The
+/// longest-idle object is the one with the smallest stamp. Membership of the idle queue is read
+/// through the visitor, the order is never read from the pool.
+fn c08_heads(w: &MWorld, among: &[u32], n: usize, lifo: bool) -> (Vec<u32>, bool) {
+    // the n ids the pool has to offer first, and whether that choice is unambiguous
+    let mut v: Vec<(u64, u32)> = among.iter().map(|i| (w.orc.idle_stamp.get(i).copied().unwrap_or(u64::MAX), *i)).collect();
+    v.sort();
+    if lifo {
+        v.reverse();
+    }
+    let n = n.min(v.len());
+    let unambiguous = n == v.len() || n == 0 || v[n - 1].0 != v[n].0;
+    (v.iter().take(n).map(|x| x.1).collect(), unambiguous && v.iter().take(n).all(|x| x.0 != u64::MAX))
+}
+
 fn c08_step(w: &mut MWorld, info: &SimInfo, sn: &Snap) -> Option<Violation> {
     let prev: Vec<u32> = w.orc.idle_prev.clone();
     let removed: Vec<u32> = prev.iter().copied().filter(|i| !sn.idle.contains(i)).collect();
-    let added: Vec<u32> = sn.idle.iter().copied().filter(|i| !prev.contains(i)).collect();
     let actor = match info.last {
         crate::engine::Decision::Run(a) | crate::engine::Decision::Cancel(a) | crate::engine::Decision::Spurious(a) => Some(a),
         _ => None,
     };
     let lifo = w.sc.pool.lifo;
     // the diff must cover exactly this step (the books were readable after the previous one)
-    if !removed.is_empty() && w.orc.model_ordered && w.orc.idle_prev_valid {
+    if !removed.is_empty() && w.orc.idle_prev_valid {
         let by_get = actor
             .and_then(|a| w.cur_op.get(a).copied().flatten().or(w.orc.last_op_of_actor.get(&a).copied()))
             .map(|opi| matches!(w.ops[opi].op, Op::Get { .. }))
             .unwrap_or(false);
         if by_get {
             // the get popped |removed| objects in this step: they must be the longest idle
-            // (Fifo) / most recently idle (Lifo) ones of the reference queue, in that order
-            let m = &w.orc.idle_model;
-            let n = removed.len().min(m.len());
-            let expect: Vec<u32> = if lifo {
-                m.iter().rev().take(n).copied().collect()
-            } else {
-                m.iter().take(n).copied().collect()
-            };
-            let mut got = removed.clone();
-            let mut exp_sorted = expect.clone();
-            got.sort();
-            exp_sorted.sort();
-            if got != exp_sorted {
-                return c08(
-                    "reuse_order",
-                    format!(
-                        "{} mode: get() took {:?} out of the idle queue, reference queue (longest idle first) is {:?}",
-                        if lifo { "Lifo" } else { "Fifo" },
-                        removed,
-                        m
-                    ),
-                );
+            // (Fifo) / most recently idle (Lifo) ones of the reference order
+            let (expect, sure) = c08_heads(w, &prev, removed.len(), lifo);
+            if sure {
+                let mut got = removed.clone();
+                let mut exp_sorted = expect.clone();
+                got.sort();
+                exp_sorted.sort();
+                if got != exp_sorted {
+                    let mut order: Vec<(u64, u32)> = prev.iter().map(|i| (w.orc.idle_stamp.get(i).copied().unwrap_or(0), *i)).collect();
+                    order.sort();
+                    return c08(
+                        "reuse_order",
+                        format!(
+                            "{} mode: get() took {:?} out of the idle queue; idle objects, longest idle first: {:?}",
+                            if lifo { "Lifo" } else { "Fifo" },
+                            removed,
+                            order.iter().map(|x| x.1).collect::<Vec<_>>()
+                        ),
+                    );
+                }
+                w.cnt.probe(if prev.len() > 1 { "order_checked_with_choice" } else { "order_checked_single" });
             }
-            w.cnt.probe(if m.len() > 1 { "order_checked_with_choice" } else { "order_checked_single" });
         }
     }
-    w.orc.idle_model.retain(|i| !removed.contains(i));
-    if added.len() > 1 {
-        w.orc.model_ordered = false;
-    }
-    for a in added {
-        w.orc.idle_model.push(a);
+    // stamp objects that became idle in this step (objects that merely re-appear, e.g. because
+    // retain() took the queue out and put it back, keep their stamp)
+    let step = info.step;
+    for id in &sn.idle {
+        let _ = w.orc.idle_stamp.entry(*id).or_insert(step);
     }
     // no background work: the runtime never has a spawned task
     let tasks = tokio::runtime::Handle::current().metrics().num_alive_tasks();
@@ -1199,7 +1208,7 @@ fn c08_step(w: &mut MWorld, info: &SimInfo, sn: &Snap) -> Option<Violation> {
     None
 }
 
-/// The first call of a recycling attempt must target the object the reference queue offers.
+/// The first call of a recycling attempt must target the object the reference order offers.
 fn c08_attempt_target(w: &mut MWorld, ci: usize) {
     let c = w.calls[ci].clone();
     let first_kind = if w.sc.pool.pre_recycle.is_empty() {
@@ -1207,29 +1216,32 @@ fn c08_attempt_target(w: &mut MWorld, ci: usize) {
     } else {
         CallKind::PreRecycle(0)
     };
-    if c.kind != first_kind || !w.orc.model_ordered {
+    if c.kind != first_kind || !w.orc.idle_prev_valid {
         return;
     }
-    // the object was popped earlier in this step or in an earlier step of this get; at pop time it
-    // must have been at the head of the reference queue. Objects popped by this get and not yet
-    // judged by the per-step rule are still in the model: x must be the head among them.
+    // Popped within this step (still listed in the books read after the previous step): it must
+    // be the head among them. Objects popped in an earlier step were judged by the per-step rule.
     let Some(x) = c.obj else { return };
-    let m = &w.orc.idle_model;
-    if m.contains(&x) {
-        let head = if w.sc.pool.lifo { m.last() } else { m.first() };
-        if head != Some(&x) {
+    if w.orc.idle_prev.contains(&x) {
+        let lifo = w.sc.pool.lifo;
+        let (head, sure) = c08_heads(w, &w.orc.idle_prev, 1, lifo);
+        if sure && head.first() != Some(&x) {
+            let mut order: Vec<(u64, u32)> = w.orc.idle_prev.iter().map(|i| (w.orc.idle_stamp.get(i).copied().unwrap_or(0), *i)).collect();
+            order.sort();
             let d = format!(
-                "{} mode: recycling attempt targets #{x}, reference queue (longest idle first) is {:?}",
-                if w.sc.pool.lifo { "Lifo" } else { "Fifo" },
-                m
+                "{} mode: recycling attempt targets #{x}; idle objects, longest idle first: {:?}",
+                if lifo { "Lifo" } else { "Fifo" },
+                order.iter().map(|x| x.1).collect::<Vec<_>>()
             );
             w.violate("C08", "reuse_order", d);
             return;
         }
-        // popped within this step: remove now so that a second pop in the same step is judged too
-        w.orc.idle_model.retain(|i| *i != x);
+        // judged: a second pop in the same step is compared with the rest
         w.orc.idle_prev.retain(|i| *i != x);
-        w.cnt.probe("order_checked_at_first_call");
+        let _ = w.orc.idle_stamp.remove(&x);
+        if sure {
+            w.cnt.probe("order_checked_at_first_call");
+        }
     }
 }
 
